@@ -401,10 +401,13 @@ def olen : Option Bytes → Nat
 def userSize (r : XRec) : Nat :=
   olen r.key + olen r.value + (r.headers.map fun h => h.key.length + olen h.value).sum
 
-/-- only a record that is large on the scale of the configured limits may be rejected -/
+/-- only a record that is large on the scale of the configured limits may be rejected: its payload plus the fixed
+overheads (at most 65 batch + 38 message + 40 request bytes, plus varints) and the ids and topic name exceed the
+smaller limit. (The tolerance was 140 before the repair c322dee, which sizes a record as a message — 31 bytes more —
+while the version is unknown or a message-set version; 143 is now reachable.) -/
 def rejectionPlausible (x : Expect) (p : XPart) (r : XRec) : Bool :=
   let small := if x.batchMax < x.limit then x.batchMax else x.limit
-  decide ((userSize r : Int) + 140 + 10 * r.headers.length + olen x.clientId + olen x.txn + (if p.topic.length > 16 then p.topic.length else 16) > small)
+  decide ((userSize r : Int) + 160 + 10 * r.headers.length + olen x.clientId + olen x.txn + (if p.topic.length > 16 then p.topic.length else 16) > small)
 
 def recMatches (magic : Nat) (d : DRec) (r : XRec) : Bool :=
   d.key == r.key && d.value == r.value
